@@ -49,6 +49,7 @@ class RecTransport:
         self.writes = []
         self.attempts = 0
         self.fail = fail
+        self.on_write = None
         self.connected = False
 
     async def connect(self):
@@ -67,6 +68,8 @@ class RecTransport:
         self.attempts += 1
         if self.fail is not None and self.fail(i):
             raise TransportFailedError("injected write fault %d" % i)
+        if self.on_write is not None:
+            self.on_write(decoded_message)
         self.writes.append(decoded_message)
 
 
